@@ -153,6 +153,16 @@ TEXT = {
               "ends, and the property's own time bound and 'nothing left alive' are checked as oracles. Partial: the time bound is not a Lean theorem; process-group members surviving "
               "graceful quit / abort of a grouped command are recorded known findings (F15a, F15b), observed by the real-process stream on every run."),
         note=COMMON_NOTE + "Modelled: tokio mpsc/select!/paused clock, process-wrap child (scripted child through the public spawn hook), SeqCst reading of the Relaxed atomics."),
+    "C05": dict(
+        design_ref="§7 C05",
+        technique="Lean 4 proofs of the action handler's decision logic stated outright (per mode, per job state) and of queue-mode freshness over all interleavings of an abstract protocol model; the decision function composed with the verified job-task model is run against the CLI's real action handler (hook H1), plus an end-to-end replay with the built binary",
+        text=("Theorems: react_idle / react_doNothing / react_signal / react_restart / react_queue_first / react_queue_again / react_no_forceful (what the state-query closure sends in each "
+              "mode: one Start when idle; nothing; exactly one Signal with stop-signal, else signal, else TERM; GracefulStop(stop-signal or TERM, stop-timeout) then Start; one follow-up "
+              "per run; never Stop/Delete/TryRestart), c04 (runs never overlap), graceful_restart_step / graceful_stop_step, and perRun_fresh (queue mode: for every interleaving of "
+              "handler, job task and follow-up tasks a quiescent state is fresh) with f10_today / reorder_insufficient as kernel-checked witnesses against the old protocol and the "
+              "obvious repair. The composed model (react + Jm, incl. --delay-run as a sleeping job task) must contain the real handler's child call log on every script; the F10 window "
+              "is replayed end to end on the built binary pinned to one CPU."),
+        note=COMMON_NOTE + "Modelled: tokio mpsc/select!/paused clock, process-wrap child (scripted child through the public spawn hook), SeqCst reading of the Relaxed atomics." + " The composition of react with the job model is done by the driver, not proved; perRun_fresh is about the abstract protocol."),
 }
 
 NOT_APPLICABLE = {}
